@@ -255,12 +255,27 @@ def setup_git(rng, root, nodes):
         (src / "LICENSE").write_text("x\n")
         trees.git(src, "add", ".")
         trees.git(src, "commit", "-q", "-m", "sub")
-        r = trees.git(root, "submodule", "add", "-q", str(src), "ext/mod", check=False)
+        # a submodule may well live below subprojects/ (Meson wrap-git): the two exclusions are independent
+        where = rng.choice(["ext/mod", "subprojects/libsub", "subprojects/libsub"])
+        if os.path.lexists(root / where.split("/")[0]) and not (root / where.split("/")[0]).is_dir():
+            where = "ext2/mod"
+        r = trees.git(root, "submodule", "add", "-q", str(src), where, check=False)
         if r.returncode == 0:
-            submods.append("ext/mod")
+            submods.append(where)
             trees.git(root, "commit", "-q", "-m", "add submodule", check=False)
         shutil.rmtree(src, ignore_errors=True)
-    elif mode == "manual":
+    if rng.random() < 0.5 and (not os.path.lexists(root / "subprojects") or (root / "subprojects").is_dir()):
+        # an ignored checkout below subprojects/ (wrap-git clone) and a plain subproject next to it
+        try:
+            (root / "subprojects" / "libwrap").mkdir(parents=True, exist_ok=True)
+            (root / "subprojects" / "libwrap" / "wrap.c").write_text("w\n")
+            (root / "subprojects" / "plainsub").mkdir(parents=True, exist_ok=True)
+            (root / "subprojects" / "plainsub" / "p.c").write_text("p\n")
+            with open(root / ".gitignore", "a") as fp:
+                fp.write("subprojects/libwrap/\n")
+        except OSError:
+            pass
+    if mode == "manual":
         (root / "manualsub").mkdir(exist_ok=True)
         (root / "manualsub" / "m.py").write_text("manual submodule file\n")
         (root / "manualsub" / "deep").mkdir(exist_ok=True)
